@@ -815,6 +815,25 @@ func (f *g2lFn) stmts(list []ast.Stmt, k kont) []string {
 	if len(list) == 0 {
 		return k()
 	}
+	// labels of plain (non-loop) statements of this list: targets of a forward goto from inside nested statements
+	if key := &list[len(list)-1]; f.labelFrameOf(key) == nil {
+		var lbl map[string]int
+		for i, st := range list {
+			if ls, ok := st.(*ast.LabeledStmt); ok {
+				switch ls.Stmt.(type) {
+				case *ast.ForStmt, *ast.RangeStmt:
+				default:
+					if lbl == nil {
+						lbl = map[string]int{}
+					}
+					lbl[ls.Label.Name] = i
+				}
+			}
+		}
+		if lbl != nil {
+			f.labelFrames = append(f.labelFrames, &labelFrame{key: key, labels: lbl, list: list, k: k, loop: f.inLoop})
+		}
+	}
 	s := list[0]
 	rest := func() []string { return f.stmts(list[1:], k) }
 	switch s := s.(type) {
@@ -869,7 +888,26 @@ func (f *g2lFn) stmts(list []ast.Stmt, k kont) []string {
 			// forward goto to a label at the top level of the function body: the rest of the function, from the label on
 			idx, ok := f.labels[s.Label.Name]
 			if !ok {
-				f.bad(s, "goto %s (only top-level labels)", s.Label.Name)
+				// a label of an enclosing statement list (not inside a loop): the rest of that list, then its continuation
+				for i := len(f.labelFrames) - 1; i >= 0; i-- {
+					fr := f.labelFrames[i]
+					if j, ok := fr.labels[s.Label.Name]; ok && fr.loop == nil {
+						savedLoop, savedBrk := f.inLoop, f.brk
+						f.inLoop, f.brk = nil, nil
+						code := f.stmts(fr.list[j:], fr.k)
+						f.inLoop, f.brk = savedLoop, savedBrk
+						if savedLoop == nil {
+							return code
+						}
+						r := f.fresh("g")
+						if f.gotoVars == nil {
+							f.gotoVars = map[string]bool{}
+						}
+						f.gotoVars[r] = true
+						return []string{fmt.Sprintf("let %s ← %s", r, f.paren(code)), "pure (Ctl.ret " + r + ")"}
+					}
+				}
+				f.bad(s, "goto %s (only labels of an enclosing statement list outside loops)", s.Label.Name)
 			}
 			savedLoop, savedBrk := f.inLoop, f.brk
 			f.inLoop, f.brk = nil, nil
@@ -1069,7 +1107,7 @@ func (f *g2lFn) assignedOuter(nodes []ast.Node, before token.Pos) []*types.Var {
 						_, ow := f.ownerOf(f.typeOf(x.X))
 						if h || in || ow {
 							// a store through a pointer changes the heap, not the pointer variable
-							if f.worldVar != nil && f.worldVar.Pos() < before && !seen[f.worldVar] {
+							if f.worldVar != nil && f.declaredBefore(f.worldVar, before) && !seen[f.worldVar] {
 								seen[f.worldVar] = true
 								out = append(out, f.worldVar)
 							}
@@ -1116,13 +1154,13 @@ func (f *g2lFn) assignedOuter(nodes []ast.Node, before token.Pos) []*types.Var {
 		v, ok := o.(*types.Var)
 		if ok && f.isWorldObj(v.Type()) {
 			// an assignment to a field of the world object changes the world
-			if f.worldVar != nil && f.worldVar.Pos() < before && !seen[f.worldVar] {
+			if f.worldVar != nil && f.declaredBefore(f.worldVar, before) && !seen[f.worldVar] {
 				seen[f.worldVar] = true
 				out = append(out, f.worldVar)
 			}
 			return
 		}
-		if !ok || v.Pos() >= before || seen[v] {
+		if !ok || !f.declaredBefore(v, before) || seen[v] {
 			return
 		}
 		if v.Parent() == f.p.pkg.Scope() {
@@ -1148,13 +1186,13 @@ func (f *g2lFn) assignedOuter(nodes []ast.Node, before token.Pos) []*types.Var {
 				add(n.X)
 			case *ast.UnaryExpr:
 				if n.Op == token.AND && len(f.u.heapTypes) > 0 {
-					if _, ok := f.heapField(f.typeOf(n)); ok && f.worldVar != nil && f.worldVar.Pos() < before && !seen[f.worldVar] {
+					if _, ok := f.heapField(f.typeOf(n)); ok && f.worldVar != nil && f.declaredBefore(f.worldVar, before) && !seen[f.worldVar] {
 						seen[f.worldVar] = true
 						out = append(out, f.worldVar)
 					}
 				}
 			case *ast.CallExpr:
-				if len(f.u.heapTypes) > 0 && f.worldVar != nil && f.worldVar.Pos() < before && !seen[f.worldVar] {
+				if len(f.u.heapTypes) > 0 && f.worldVar != nil && f.declaredBefore(f.worldVar, before) && !seen[f.worldVar] {
 					if id, ok := n.Fun.(*ast.Ident); ok && id.Name == "new" {
 						seen[f.worldVar] = true
 						out = append(out, f.worldVar)
@@ -1171,14 +1209,14 @@ func (f *g2lFn) assignedOuter(nodes []ast.Node, before token.Pos) []*types.Var {
 				if _, ok := f.u.walkCalls[strings.Join(strings.Fields(show(n.Fun)), "")]; ok && len(n.Args) == 2 {
 					if lit, ok := n.Args[1].(*ast.FuncLit); ok {
 						for _, v := range f.assignedOuter([]ast.Node{lit.Body}, lit.Pos()) {
-							if v.Pos() < before && !seen[v] {
+							if f.declaredBefore(v, before) && !seen[v] {
 								seen[v] = true
 								out = append(out, v)
 							}
 						}
 					}
 				}
-				if f.worldVar != nil && f.isWorldCall(n) && f.worldVar.Pos() < before && !seen[f.worldVar] {
+				if f.worldVar != nil && f.isWorldCall(n) && f.declaredBefore(f.worldVar, before) && !seen[f.worldVar] {
 					seen[f.worldVar] = true
 					out = append(out, f.worldVar)
 				}
@@ -1189,7 +1227,7 @@ func (f *g2lFn) assignedOuter(nodes []ast.Node, before token.Pos) []*types.Var {
 				if id, ok := n.Fun.(*ast.Ident); ok {
 					if cl, ok := f.closures[f.p.info.Uses[id]]; ok {
 						for _, v := range cl.modV {
-							if v.Pos() < before && !seen[v] {
+							if f.declaredBefore(v, before) && !seen[v] {
 								seen[v] = true
 								out = append(out, v)
 							}
@@ -2457,6 +2495,7 @@ func (f *g2lFn) inlineCall(c *ast.CallExpr, name string, rest kont) []string {
 			lines = append(lines, fmt.Sprintf("let %s := %s", f.name(n), v))
 		}
 	}
+	f.inlineRanges = append(f.inlineRanges, [2]token.Pos{fd.Pos(), fd.End()})
 	return append(lines, f.stmts(fd.Body.List, rest)...)
 }
 
@@ -2609,4 +2648,21 @@ func (f *g2lFn) sortSliceCall(b *binds, e *ast.CallExpr) string {
 		b.add(l)
 	}
 	return "()"
+}
+
+type labelFrame struct {
+	key    *ast.Stmt
+	labels map[string]int
+	list   []ast.Stmt
+	k      kont
+	loop   *g2lLoop
+}
+
+func (f *g2lFn) labelFrameOf(key *ast.Stmt) *labelFrame {
+	for _, fr := range f.labelFrames {
+		if fr.key == key {
+			return fr
+		}
+	}
+	return nil
 }
